@@ -246,7 +246,20 @@ def subscribeNotifier (w : TW) (j : Nat) : TW :=
       | .timer v dur =>
           let (s1, h) := w.sched.scheduleOnce (.emit j (.next v)) (some dur)   -- not generated
           { w with sched := s1 }.setStage j (.op2n st nsrc false (some h))
-      | .iterc _ => w
+      | .iterc n =>
+          -- from_iter as second input: pull while the B-side observer is not finished
+          let rec loopB (fuel k : Nat) (w : TW) : TW :=
+            match fuel with
+            | 0 => w
+            | fuel + 1 =>
+              match w.stages[j]? with
+              | some (.op2n st' _ _ _) =>
+                if st'.finished .b (fin (w.stages.drop (j + 1))) then w
+                else if k < n then
+                  loopB fuel (k + 1) ({ w with pulls := w.pulls + 1 }.pushB j [.next (.int k)])
+                else w.pushB j [.complete]
+              | _ => w
+          loopB (n + 1) 0 w
       | .future _ _ => w        -- async sources in notifier position: not generated
       | .stream _ _ _ => w
   | _ => w
